@@ -111,6 +111,28 @@ def ob_open(conf: int, prop: int, t0: int) -> bool:
         eq(w.fsm.hold_time, h)
 
 
+def ob_open_after_earlier(conf: int, prop: int, stale: int) -> bool:
+    """a later session: Connect still carries the hold time an earlier session negotiated (0 or 3..configured); TCP
+    comes up, the peer's OPEN arrives: H = min(configured, proposed) all the same"""
+    assume(conf == 0 or 3 <= conf < 65536)
+    assume(prop == 0 or 3 <= prop < 65536)
+    assume(stale == 0 or 3 <= stale <= conf)
+    w = S.in_state(S.CONNECT, {'hold_time': conf}, now=100, old_closed=True, stale_hold=stale)
+    w.ev_tcp_ok()
+    if w.state != S.OPENSENT:
+        return False
+    w.ev_data(S.rfc_open(4, 65002, prop, 0x0A000002, S.cap_as4(65002)))
+    h = conf if conf < prop else prop
+    if w.state != S.OPENCONFIRM:
+        return False
+    if h == 0:
+        cover('h0')
+        return not w.timer_active('hold') and not w.timer_active('keepalive')
+    cover('h>0')
+    return w.timer_active('hold') and eq(w.timer_deadline('hold'), 100 + h) and \
+        w.timer_active('keepalive') and eq(w.timer_deadline('keepalive'), 100 + third(h)) and eq(w.fsm.hold_time, h)
+
+
 def ob_opensent(t0: int, conf: int) -> bool:
     """while waiting for the peer's OPEN the limit is the fixed 4-minute large hold time"""
     assume(0 <= t0 < 10 ** 6)
@@ -216,6 +238,7 @@ def obligations(tier, seed):
             out.append(ob('C03/deadline/%s/%s/H=0' % (S.STATE_NAMES[state], ev), 'ob_deadline',
                           {'state': state, 'ev': ev, 'h0': True}, covers=['stepped']))
     out.append(ob('C03/negotiate/OPENSENT/open_ok', 'ob_open', {}, covers=['h0', 'h>0']))
+    out.append(ob('C03/negotiate/after-earlier-session', 'ob_open_after_earlier', {}, covers=['h0', 'h>0']))
     out.append(ob('C03/opensent/large-hold', 'ob_opensent', {}, covers=['fired']))
     ks = [1, 2] if quick else [1, 2, 3]
     for k in ks:
